@@ -2,6 +2,7 @@ import AlgoVerif.Proofs.C08Total5
 import AlgoVerif.Proofs.C09LeftRecMain
 import AlgoVerif.Proofs.C09LeftFactorPost
 import AlgoVerif.Proofs.C09LeftRecValid
+import AlgoVerif.Proofs.C08Aux
 /-!
 # C09 — normal forms are reached, results pass `Verify()`, inputs are never mutated
 
@@ -288,3 +289,24 @@ theorem C09_leftfactoring_leftFactored_of_unique (g g' : G) (hw : WellFormed g) 
     (huniq : ∀ p ∈ g'.prods, ∃ q ∈ g'.prods, q.head = p.head ∧ ¬ AlgoVerif.C08.SharesFirst g' q) :
     AlgoVerif.C09.Spec.LeftFactored g' :=
   AlgoVerif.C08.C09_leftfactor_leftFactored_of_unique hw h huniq
+
+/-! ## `Verify()` and `IsCNF()` as the lists of errors they return (`verifyErrors`, `cnfErrors`; corresponded with the
+implementation's errors on valid and on malformed grammars, ops `verify` and `iscnf`) -/
+
+/-- **`Verify()` returns no error exactly on the grammars the theorems call `Valid`**: the list of errors the Model of
+`Verify()` collects (one per offence: start symbol undeclared / without production, non-terminal without production,
+undeclared head, undeclared terminal or non-terminal in a body) is empty iff `Spec.Valid g`. -/
+theorem C09_verify_errors_iff_valid (g : G) : AlgoVerif.C10.verifyErrors g = [] ↔ Valid g :=
+  verifyErrors_nil_iff_Valid g
+
+/-- **`IsCNF()` returns no error exactly when every production has one of the three forms it checks** (`looseCNFB`,
+the predicate `C09_cnf_agrees_with_IsCNF` proves of `ChomskyNormalForm`'s result). -/
+theorem C09_iscnf_errors_iff (g : G) : cnfErrors g = [] ↔ looseCNFB g = true :=
+  cnfErrors_nil_iff g
+
+example : AlgoVerif.C10.verifyErrors (⟨["a"], ["S", "Y"], [⟨"S", [.term "a", .nonterm "Z", .term "z"]⟩, ⟨"W", []⟩], "Q"⟩ : G)
+    = [.startUndeclared, .noStartProd, .noProd "Y", .nontermUndeclared "Z", .termUndeclared "z", .headUndeclared "W"] := by
+  decide
+
+example : cnfErrors (⟨["a"], ["S", "A"], [⟨"S", [.nonterm "A", .nonterm "A"]⟩, ⟨"S", []⟩, ⟨"A", [.term "a"]⟩,
+    ⟨"A", []⟩, ⟨"A", [.nonterm "S"]⟩], "S"⟩ : G) = [⟨"A", []⟩, ⟨"A", [.nonterm "S"]⟩] := by decide
